@@ -1,13 +1,15 @@
 import QuiverModel.Core.Text.Doc
 import QuiverModel.Lemmas.Text.Escape
 import QuiverModel.Lemmas.Text.Layout
+import QuiverModel.Lemmas.Text.Fragment
 /-
 C17 — Formatting is a fixpoint and preserves the program and its comments.
 Property theorems about M-Text (the layout engine of `pretty.rs` and the string re-escaping of
 `format.rs` / `parser.rs`). Every theorem is `C17.<name>`.
 
-What these theorems do NOT cover: the parser and the AST→Doc builder of `format.rs`. The four
-statements of the property about the whole pipeline are decided by the implementation oracle in
+What these theorems do NOT cover: the parser and the AST→Doc builder of `format.rs` outside the
+FRAGMENT of the last section (nested anonymous tuples of identifiers, one statement, no trivia). The
+four statements of the property about the whole pipeline are decided by the implementation oracle in
 `harness/src/bin/c17` (exploration, not proof) — see `notes/C17.md`.
 -/
 namespace C17
@@ -305,5 +307,64 @@ theorem expandLine_placeholder (margin : List Char) (Ls : List (List Char))
   unfold expandLine
   simp only [htw, hdw]
   simp [literalPlaceholder, natDigits, parseUsize, indentLine]
+
+/-! ## The fragment port: format, then parse, gives the program back
+
+On the fragment of Core/Text/Fragment (nested anonymous tuples of identifiers; one statement; no
+trivia) both directions are modelled — the AST→`Doc` builders of `format.rs` (`programDoc`: the docs of
+`sequence_doc_with`/`chain_doc`/`field_doc`/`tuple_doc`/`bracketed`, groups, `break_if_wider_than`
+and all) and the productions of `parser.rs` the fragment reaches (`programP`, on the nom combinator
+layer of Core/Parse/Type) — and both are tied to the implementation by the `frag` differential of
+`harness/src/bin/c17`. The theorems hold for EVERY page width, not only `WIDTH` = 100: whichever
+groups the engine decides to break, the text is one of the layouts of `t` (`Frag.LayP`), every layout
+is free of trailing white space (so `strip_trailing_whitespace` is the identity on it) and the parser
+reads every layout back as `t`. -/
+
+open QM.Frag QM.Parse in
+/-- The pieces the engine prints for the program `t` are a layout of `t`. -/
+theorem fragment_prints_layout (t : T) (h : t.WF) (w : Nat) : LayP t (printPieces (programDoc t) w) := by
+  unfold printPieces programDoc sequenceDoc Doc.mkGroup
+  rw [pl_concat]
+  simp only [mkFrames, List.cons_append, List.nil_append]
+  obtain ⟨m', hg⟩ := pl_group w 0 0 .brk []
+    (.concat [.concat [.nil, chainDoc (termDoc t), .nil], .nest 0 (.concat [])])
+    (forcesBreak (.concat [.concat [.nil, chainDoc (termDoc t), .nil], .nest 0 (.concat [])]))
+  rw [hg, pl_concat]
+  simp only [mkFrames, List.cons_append, List.nil_append]
+  obtain ⟨ps, col', hp, hl⟩ := printsAs_fieldDoc (printLoop_term t h) w 0 0 m'
+    [⟨0, m', .nest 0 (.concat [])⟩]
+  rw [show Doc.concat [.nil, chainDoc (termDoc t), .nil] = fieldDoc (termDoc t) from rfl, hp,
+    pl_nest, pl_concat]
+  simp only [mkFrames, printLoop_nil_nil, List.append_nil]
+  exact hl
+
+open QM.Frag QM.Parse in
+/-- `print` of the program's document is the text of that layout: stripping trailing white space
+    changes nothing. -/
+theorem fragment_print_eq (t : T) (h : t.WF) (w : Nat) :
+    print (programDoc t) w = renderPieces (printPieces (programDoc t) w) :=
+  strip_layP (fragment_prints_layout t h w)
+
+open QM.Frag QM.Parse in
+/-- C17 on the fragment: for every program `t` of the fragment and every page width, parsing the
+    formatted text gives `t` back (the whole text is consumed). -/
+theorem format_fixpoint_fragment (t : T) (h : t.WF) (w : Nat) :
+    programP (print (programDoc t) w) = .ok t [] := by
+  rw [fragment_print_eq t h w]
+  have hl := fragment_prints_layout t h w
+  generalize printPieces (programDoc t) w = ps at hl
+  have hp := termP_lay hl ((renderPieces ps).length + 1) [] (by omega) trivial
+  rw [List.append_nil] at hp
+  unfold programP
+  rw [seq_ok (wsc_headOk (layP_head hl))]
+  exact before_ok (b := ()) hp (by simp [QM.Parse.seq, QM.Parse.bind, wsc, skipWsc, peof])
+
+open QM.Frag QM.Parse in
+/-- … hence formatting is a fixpoint there: formatting what the formatted text parses to gives the
+    same text again (at any pair of widths the second run sees the same program). -/
+theorem format_idempotent_fragment (t : T) (h : t.WF) (w : Nat) :
+    ∃ t', programP (print (programDoc t) w) = .ok t' [] ∧
+      print (programDoc t') w = print (programDoc t) w :=
+  ⟨t, format_fixpoint_fragment t h w, rfl⟩
 
 end C17
